@@ -239,7 +239,7 @@ const MODES7: [M7; 8] = [
     m7(2, 6, 0, 0, 5, 5, 1, 0, 2, 0),
 ];
 
-fn subset_of(ns: u32, part: usize, px: usize) -> usize {
+pub(crate) fn subset_of(ns: u32, part: usize, px: usize) -> usize {
     match ns {
         1 => 0,
         2 => P2[part][px] as usize,
